@@ -406,4 +406,225 @@ def check_C18(ctx):
                   assumptions=TRUSTED)
 
 
-CHECKS = {"C11": check_C11, "C09": check_C09, "C16": check_C16, "C17": check_C17, "C15": check_C15, "C10": check_C10, "C12": check_C12, "C08": check_C08, "C13": check_C13, "C20": check_C20, "C05": check_C05, "C19": check_C19, "C06": check_C06, "C07": check_C07, "C14": check_C14, "C18": check_C18}
+# --------------------------------------------------------------------------- C02 / C03 / C04 (engine level)
+
+ENGINE_INV = ["BindingsImmutable", "Independent", "NoCarryOver", "Deterministic", "NoConflict"]
+
+
+def engine_cfg(pol="MCPol", budget=3, cells=()):
+    return ("CONSTANT ExtractedCells = {%s}\n" % ", ".join('"%s"' % c for c in cells) +
+            "CONSTANT G = 2\nCONSTANT Budget = %d\nCONSTANT Templates <- MCTemplates\nCONSTANT Envs <- MCEnvs\n"
+            "CONSTANT Pol <- %s\nINIT EInit\nNEXT ENext\nCHECK_DEADLOCK FALSE\nINVARIANTS %s\n"
+            % (budget, pol, " ".join(ENGINE_INV)))
+
+
+def session_events(obs_list, tag=""):
+    events, index = [], {}
+    for o in obs_list:
+        if o.get("outcome") == "skip":
+            raise Infra("session could not be concretised: %s" % o.get("msg"))
+        if o.get("outcome") != "ok":
+            # the whole session died: one rejected pseudo-event
+            index[str(o["id"]) + "#*"] = (o, {"entry": "?", "t": -1, "b": -1, "outcome": o.get("outcome")})
+            continue
+        for ev in o["events"]:
+            eid = "%s#%d%s" % (o["id"], ev["i"], tag)
+            index[eid] = (o, ev)
+            e = {"id": eid, "sid": str(o["id"]), "t": ev["t"], "b": ev["b"], "entry": ev["entry"],
+                 "prog": o["templates"][ev["t"]], "env": o["envabs"][ev["b"]], "before": ev["before"], "after": ev["after"],
+                 "outcome": ev["outcome"], "out": ev.get("out", [])}
+            if o.get("anyorder"):
+                e["anyorder"] = o["anyorder"]
+            events.append(e)
+    return events, index
+
+
+def validate_sessions(ctx, obs_lists):
+    """obs_lists: one list of session observations per process; events of the same session share a memo."""
+    import vcheck
+    by_sid = {}
+    index = {}
+    for pi, obs in enumerate(obs_lists):
+        ev, idx = session_events(obs, tag="@p%d" % pi if pi else "")
+        index.update(idx)
+        for e in ev:
+            by_sid.setdefault(e["sid"], []).append(e)
+    for eid, (o, ev) in index.items():
+        if eid.endswith("#*"):
+            oo = dict(o)
+            oo["text"] = " / ".join(o.get("texts", []))[:300]
+            ctx.reject(oo, None, "the session did not complete: %s" % o.get("outcome"))
+    # chunks of whole sessions
+    chunks, cur = [], []
+    for sid, evs in by_sid.items():
+        cur.extend(evs)
+        if len(cur) > 3000:
+            chunks.append(cur)
+            cur = []
+    if cur:
+        chunks.append(cur)
+    cfg = open(os.path.join(vcheck.SPEC, "TraceEngine.cfg")).read()
+    import concurrent.futures as cf
+
+    def one(k_ch):
+        k, ch = k_ch
+        path = os.path.join(ctx.scratch, "trace_engine_%d.ndjson" % k)
+        with open(path, "w") as f:
+            for e in ch:
+                f.write(json.dumps(e, separators=(",", ":")) + "\n")
+        res = vcheck.run_tlc(ctx.scratch, "TraceEngine", cfg, workers=1, timeout=1800, env={"LQ_TRACE": path}, heap="3g")
+        os.remove(path)
+        if res.violation:
+            raise Infra("TraceEngine stopped: %s\n%s" % (res.violation, res.raw_tail))
+        return ch, res
+
+    with cf.ThreadPoolExecutor(max_workers=8) as ex:
+        for ch, res in ex.map(one, list(enumerate(chunks))):
+            ctx.states += res.distinct
+            ctx.transitions += res.states
+            seen = 0
+            for line in res.lines:
+                if line.startswith('<<"V"'):
+                    t = vcheck.parse_tuple_line(line)
+                    seen += 1
+                    o, ev = index[t[1]]
+                    if t[2] == "REJECT":
+                        oo = {"id": t[1], "kind": "session", "text": o["texts"][ev["t"]], "env": o["envabs"][ev["b"]],
+                              "outcome": ev["outcome"], "out": ev.get("out", []), "entry": ev["entry"],
+                              "history": [(e["t"], e["b"], e["entry"]) for e in o["events"][:ev["i"]]][-12:],
+                              "panic": ev.get("panic", ""), "panicat": ev.get("panicat", ""), "msg": ev.get("msg", "")}
+                        ctx.reject(oo, json.loads(t[3]), json.loads(t[3]).get("why", ""))
+                    else:
+                        ctx.validated += 1
+                        if t[2] == "ok":
+                            ctx.nontrivial.add((o["texts"][ev["t"]], json.dumps(o["envabs"][ev["b"]]), ev["entry"]))
+            if seen != len(ch):
+                raise Infra("TraceEngine judged %d of %d events" % (seen, len(ch)))
+    for obs in obs_lists[:1]:
+        for o in obs[:2]:
+            if o.get("outcome") == "ok":
+                ctx.samples.append({"session": o["id"], "templates": o["texts"][:4],
+                                    "history": [(e["t"], e["b"], e["entry"], e["outcome"]) for e in o["events"][:8]]})
+
+
+def build_cli(ctx):
+    import subprocess
+    import vcheck
+    out = os.path.join(vcheck.BUILD, "liquid-cli")
+    p = subprocess.run(["go", "build", "-o", out, "./cmd/liquid"], cwd=vcheck.REPO, env=vcheck.GOENV, capture_output=True, text=True)
+    if p.returncode != 0:
+        raise Infra("building cmd/liquid failed: " + p.stderr)
+    os.environ["LQ_CLI"] = out
+
+
+def check_C03(ctx):
+    ctx.tlc_mc("MC_Engine", engine_cfg(), timeout=1800, heap="16g")
+    sessions = ctx.gen("session", 150 if ctx.quick else 4000)
+    obs = ctx.run_cases(sessions, deadline=60)
+    validate_sessions(ctx, [obs])
+    ctx.exhaustive = False
+    return finish(ctx, rule="MC_Engine: every interleaving of up to 3 renders by 2 goroutines over 3 templates (one re-assigning a "
+                            "binding name to its sorted self and iterating a map, one with loop/cycle/capture state, one failing "
+                            "half-way) x 2 binding environments, with BindingsImmutable / Independent / NoCarryOver in every "
+                            "state; the implementation runs seeded histories of 2-40 renders (all entry points, fresh parses and "
+                            "engines, successes and failures mixed) on one engine with deep snapshots of the bindings before and "
+                            "after every render, and TraceEngine validates every event", assumptions=TRUSTED)
+
+
+def check_C02(ctx):
+    cases, _ = ctx.tlc_mc("MC_Engine", engine_cfg(), timeout=1800, heap="16g")
+    build_cli(ctx)
+    sessions = (ctx.gen("mapsession", 40 if ctx.quick else 600) + ctx.gen("session", 60 if ctx.quick else 2000)
+                + ctx.gen("clisession", 6 if ctx.quick else 60))
+    obs1 = ctx.run_cases(sessions, deadline=120)
+    obs2 = ctx.run_cases(sessions, deadline=120)          # a second process
+    validate_sessions(ctx, [obs1, obs2])
+    ctx.exhaustive = False
+    return finish(ctx, rule="MC_Engine: Deterministic (same template and bindings give the same result in every history and "
+                            "interleaving, for every order Go may iterate a map in) checked by TLC; the implementation renders "
+                            "pooled templates (incl. maps of 2-12 entries in loops, tablerow and array filters) repeatedly through "
+                            "Render, RenderString, FRender, ParseAndRender, ParseAndRenderString, ParseAndFRender, the CLI, on "
+                            "fresh parses and engines, with re-built maps, in two processes; TraceEngine requires every result to "
+                            "equal the first one seen for that (template, bindings) and to be allowed by the reference",
+                  assumptions=TRUSTED)
+
+
+# --------------------------------------------------------------------------- C04
+
+def extract_cells(ctx):
+    import shutil
+    import subprocess
+    import vcheck
+    ex = os.path.join(vcheck.VERIF, "extract")
+    shutil.copyfile(os.path.join(vcheck.REPO, "go.sum"), os.path.join(ex, "go.sum"))
+    out = os.path.join(vcheck.BUILD, "lqextract")
+    p = subprocess.run(["go", "build", "-o", out, "."], cwd=ex, env=vcheck.GOENV, capture_output=True, text=True)
+    if p.returncode != 0:
+        raise Infra("building the extractor failed: " + p.stderr)
+    p = subprocess.run([out, vcheck.REPO], capture_output=True, text=True, env=vcheck.GOENV)
+    if p.returncode != 0:
+        raise Infra("extractor failed: " + p.stderr[-800:])
+    return json.loads(p.stdout)
+
+
+def check_C04(ctx):
+    import glob
+    import vcheck
+    found = extract_cells(ctx)
+    cells = sorted({"cycle.err" if "cycleTag" in c["func"] else "%s.%s" % (c["func"].split("/")[-1], c["var"]) for c in found})
+    ctx.extra_cov["extracted_shared_cells"] = found
+    # all interleavings of the engine model over the extracted access table
+    import vcheck as vc
+    res_conflict = None
+    cfg = engine_cfg(cells=cells)
+    try:
+        ctx.tlc_mc("MC_Engine", cfg, timeout=1800, heap="16g")
+    except Infra as e:
+        if "NoConflict" in str(e):
+            res_conflict = str(e)[:1500]
+        else:
+            raise
+    # dynamic part: the race detector observing real concurrent executions
+    race_bin = vcheck.build_harness(race=True)
+    sessions = ctx.gen("consession", 12 if ctx.quick else 120)
+    seq_obs = ctx.run_cases(sessions, deadline=120)                  # alone, sequentially
+    racedir = os.path.join(ctx.scratch, "race")
+    os.makedirs(racedir, exist_ok=True)
+    os.environ["GORACE"] = "log_path=%s/r halt_on_error=0 exitcode=0" % racedir
+    con_obs_all = []
+    combos = [(2, 4), (8, 16), (32, 1)] if ctx.quick else [(2, 1), (2, 16), (8, 4), (8, 16), (32, 16), (32, 1)]
+    for n, procs in combos:
+        cs = []
+        for s in sessions:
+            c = dict(s)
+            c["concurrent"] = n
+            c["gomaxprocs"] = procs
+            cs.append(c)
+        con_obs_all.append(ctx.run_cases(cs, deadline=300, workers=2, binary=race_bin))
+    os.environ.pop("GORACE", None)
+    validate_sessions(ctx, [seq_obs] + con_obs_all)
+    reports = []
+    for f in glob.glob(os.path.join(racedir, "r.*")):
+        txt = open(f).read()
+        if "DATA RACE" in txt:
+            reports.append(txt)
+    if reports:
+        first = reports[0]
+        ctx.reject({"id": "race-report", "kind": "race", "text": first[:3000], "outcome": "race"}, None,
+                   "the race detector reported %d data race(s) between concurrent parse/render" % sum(r.count("DATA RACE") for r in reports))
+    elif res_conflict:
+        ctx.notes.append("static candidate not reproduced by the race detector: " + res_conflict[:400])
+    ctx.exhaustive = False
+    return finish(ctx, rule="the shared mutable cells written at render time are extracted from the current tree (go/ssa: stores to "
+                            "variables captured by escaping closures and to package variables) and become the `cells` constant of "
+                            "MC_Engine, on which TLC explores every interleaving of 2 goroutines x 3 renders (NoConflict, "
+                            "Independent = each concurrent render returns what it returns alone); the implementation runs "
+                            "sessions of 96 parses/renders over templates covering every standard tag and filter from 2/8/32 "
+                            "goroutines sharing one engine, one set of parsed templates and one set of bindings, built with "
+                            "-race, at GOMAXPROCS 1/4/16; any race report is a violation and every concurrent result is "
+                            "validated by TraceEngine against the same render run alone",
+                  assumptions=TRUSTED + ["Go race detector (observes the executions that happen)",
+                                         "extraction covers closure-captured and package-level variables, not arbitrary heap aliasing"])
+
+
+CHECKS = {"C11": check_C11, "C09": check_C09, "C16": check_C16, "C17": check_C17, "C15": check_C15, "C10": check_C10, "C12": check_C12, "C08": check_C08, "C13": check_C13, "C20": check_C20, "C05": check_C05, "C19": check_C19, "C06": check_C06, "C07": check_C07, "C14": check_C14, "C18": check_C18, "C03": check_C03, "C02": check_C02, "C04": check_C04}
